@@ -21,7 +21,6 @@ CONSTANTS
   Focus = "all"
 INVARIANT TypeOK
 INVARIANT Transparent
-INVARIANT Exact
 INVARIANT RefsTransparent
 INVARIANT StaleRejected
 VIEW view
